@@ -330,7 +330,7 @@ func (x *Exec) binop(fr *Frame, st *State, op token.Token, a, b Value, T types.T
 			} else if isNilConst(a) {
 				eq = Eq(b.L[0], IntLit(0))
 			} else {
-				eq = And(Eq(a.L[0], b.L[0]), Eq(a.L[1], b.L[1]))
+				eq = x.ifaceEq(a, b)
 			}
 		case isSliceT(a.T):
 			// only comparison with nil is legal
@@ -352,6 +352,29 @@ func (x *Exec) binop(fr *Frame, st *State, op token.Token, a, b Value, T types.T
 	}
 	unsup("binary op %s on %s", op, a.T)
 	return Value{}
+}
+
+// ifaceEq: interface values are equal when their dynamic types agree and their payloads agree; values
+// of zero-size types (struct{}) have no payload to compare.
+func (x *Exec) ifaceEq(a, b Value) *Term {
+	var zs []*Term
+	for id := 1; id < len(x.c.tagTypes); id++ {
+		T := x.c.tagTypes[id]
+		if T == errPseudoType {
+			continue
+		}
+		if func() (z bool) {
+			defer func() {
+				if recover() != nil {
+					z = false
+				}
+			}()
+			return len(x.c.leaves(T)) == 0
+		}() {
+			zs = append(zs, Eq(a.L[0], IntLit(int64(id))))
+		}
+	}
+	return And(Eq(a.L[0], b.L[0]), Or(append([]*Term{Eq(a.L[1], b.L[1])}, zs...)...))
 }
 
 func isSliceT(T types.Type) bool { _, ok := T.Underlying().(*types.Slice); return ok }
@@ -652,6 +675,11 @@ func (x *Exec) typeAssert(fr *Frame, st *State, in *ssa.TypeAssert) {
 	} else {
 		ok = Eq(iv.L[0], IntLit(int64(x.c.typeTag(T))))
 		val = x.unbox(st, iv, T)
+		if ls := x.c.leaves(T); !(len(ls) == 1 && ls[0].Kind == 'r') && len(ls) > 0 {
+			// a non-pointer value inside an interface lives in a box that exists and is well formed
+			st.assume(Implies(ok, IntCmp(">", iv.L[1], IntLit(0))))
+			x.wellFormed(st, val)
+		}
 	}
 	if in.CommaOk {
 		z := x.zero(T)
